@@ -107,6 +107,7 @@ func (g *gen) Add(name string, typs []types.Type) (string, error) {
 	if len(typs) != 2 && len(typs) != 1 {
 		return "", fmt.Errorf("%s does not have one or two arguments", name)
 	}
+	typs = derive.TypedPair(typs)
 	if len(typs) == 2 {
 		if !types.Identical(typs[0], typs[1]) {
 			return "", fmt.Errorf("%s has two arguments, but they are of different types %s != %s",
